@@ -1199,3 +1199,182 @@ def extra_synth_specs(assets):
             S.append(("dotnet_genericinst_%d" % n, (lambda n=n: net_long_signature(b0, b"\x15" * n + b"\x12\x05" + b"\x01\x08" * n)), "dotnet", "", n))
             S.append(("dotnet_ptr_%d" % n, (lambda n=n: net_long_signature(b0, b"\x0f" * n + b"\x08")), "dotnet", "", n))
     return S
+
+
+# ------------------------------------------------------------------------------------------------ systematic sweeps
+def net_index_sweep(b, all_rows=False):
+    """Every metadata column that is an index into a table or a heap x boundary values, systematically:
+    table index T(t): 0, 1, rows-1, rows, rows+1, rows+2, max;  coded index: for every tag whose table exists the rows
+    rows-1 .. rows+2 (and row 0 / 1 for the first tag), plus max;  heap index: 0, 1, size-1, size, size+1, max.
+    Rows: all of them for small tables (<= 6 rows) or when all_rows, else the first two and the last two.
+    Yields (what, edit)."""
+    p = net_parse(b)
+    if p is None:
+        return
+    rows = p["rows"]
+    lay = pe_layout(b)
+    md = lay[3]
+    # heap sizes from the stream headers
+    vlen = u32(b, md + 12)
+    so = md + 16 + vlen
+    ns = u16(b, so + 2)
+    so += 4
+    heaps = {}
+    for _ in range(min(ns, 16)):
+        end = b.find(b"\0", so + 8)
+        heaps[bytes(b[so + 8:end])] = u32(b, so + 4)
+        so = (end + 4) & ~3
+    hsize = {"S": heaps.get(b"#Strings", 0), "G": heaps.get(b"#GUID", 0) // 16, "B": heaps.get(b"#Blob", 0)}
+    for t in sorted(rows):
+        n = rows[t]
+        name, cols = NET_TABLES[t]
+        rr = list(range(1, n + 1)) if (n <= 6 or all_rows) else [1, 2, n - 1, n]
+        for c, k in enumerate(cols):
+            if k in (2, 4):
+                continue
+            for r in rr:
+                off, size = p["col"](t, r, c)
+                mx = (1 << (8 * size)) - 1
+                if k in ("S", "G", "B"):
+                    vals = [0, 1, hsize[k] - 1, hsize[k], hsize[k] + 1, mx]
+                elif k[0] == "T":
+                    m = rows.get(k[1], 0)
+                    vals = [0, 1, m - 1, m, m + 1, m + 2, mx]
+                else:
+                    bits, tabs = NET_CODED[k[1]]
+                    vals = [0, mx]
+                    for tag, tt in enumerate(tabs):
+                        if tt is None:
+                            continue
+                        m = rows.get(tt, 0)
+                        for row in ([0, 1] if tag == 0 else []) + [m - 1, m, m + 1, m + 2]:
+                            if row >= 0:
+                                vals.append((row << bits) | tag)
+                cur = int.from_bytes(b[off:off + size], "little")
+                for v in sorted(set(x & mx for x in vals if x >= 0)):
+                    if v != cur:
+                        yield ("%s[%d].col%d=%#x" % (name, r, c, v), {"op": "set", "off": off, "hex": enc(v, size, False)})
+
+
+def macho_entry_fields(b, base=0, arch_offset=0, out=None):
+    """[(file offset, size, name, big_endian, arch_offset)] of the entry-point carrying fields: LC_MAIN entryoff /
+    stacksize (8 bytes each) and the LC_UNIXTHREAD register words, in a thin file or in every member of a fat file"""
+    out = [] if out is None else out
+    magic = b[base:base + 4]
+    if magic in (b"\xca\xfe\xba\xbe", b"\xca\xfe\xba\xbf") and base == 0:
+        n = struct.unpack_from(">I", b, 4)[0] if len(b) >= 8 else 0
+        es = 32 if magic == b"\xca\xfe\xba\xbf" else 20
+        for i in range(min(n, 8)):
+            o = 8 + i * es
+            if o + es > len(b):
+                break
+            off = struct.unpack_from(">Q" if es == 32 else ">I", b, o + 8)[0]
+            out.append((o + 8, 8 if es == 32 else 4, "fat%d.offset" % i, True, 0))
+            out.append((o + (16 if es == 32 else 12), 8 if es == 32 else 4, "fat%d.size" % i, True, 0))
+            if 0 < off < len(b):
+                macho_entry_fields(b, off, off, out)
+        return out
+    if magic not in (b"\xfe\xed\xfa\xce", b"\xfe\xed\xfa\xcf", b"\xce\xfa\xed\xfe", b"\xcf\xfa\xed\xfe"):
+        return out
+    be = magic in (b"\xfe\xed\xfa\xce", b"\xfe\xed\xfa\xcf")
+    is64 = magic in (b"\xfe\xed\xfa\xcf", b"\xcf\xfa\xed\xfe")
+    rd = lambda o: struct.unpack_from(">I" if be else "<I", b, o)[0] if o + 4 <= len(b) else 0
+    o = base + (32 if is64 else 28)
+    for i in range(min(rd(base + 16), 64)):
+        if o + 8 > len(b):
+            break
+        cmd, sz = rd(o), rd(o + 4)
+        if cmd == 0x80000028:
+            out.append((o + 8, 8, "LC_MAIN.entryoff", be, arch_offset))
+            out.append((o + 16, 8, "LC_MAIN.stacksize", be, arch_offset))
+        elif cmd in (4, 5):
+            for k in range(16, min(sz, 184), 8):
+                out.append((o + k, 8, "LC_UNIXTHREAD+%d" % k, be, arch_offset))
+        elif cmd in (1, 0x19):
+            w = 8 if cmd == 0x19 else 4
+            for j, nm in enumerate(["vmaddr", "vmsize", "fileoff", "filesize"]):
+                out.append((o + 24 + j * w, w, "seg%d.%s" % (i, nm), be, arch_offset))
+        if sz < 8:
+            break
+        o += sz
+    return [f for f in out if f[0] + f[1] <= len(b)]
+
+
+def macho_extremes(rng, b):
+    F = macho_entry_fields(b)
+    if not F:
+        return None
+    edits, what = [], []
+    for _ in range(rng.choice([1, 1, 2, 3])):
+        off, size, name, be, ao = rng.choice(F)
+        M = 1 << (8 * size)
+        v = rng.choice([M - 1, M - ao, M - ao - 1, M - ao + 1, M >> 1, (M >> 1) - 1, 1 << 32, (1 << 32) - 1, 0, 1, len(b), len(b) - ao])
+        edits.append({"op": "set", "off": off, "hex": enc(v, size, be)})
+        what.append("%s=%#x" % (name, v % M))
+    return what, edits
+
+
+# rules calling the module functions with arguments taken from the file through the module's own values
+CALL_RULES = {
+    "macho": ["macho.entry_point_for_arch(macho.cputype) >= 0", "macho.entry_point_for_arch(macho.cputype, macho.cpusubtype) >= 0",
+              "macho.entry_point_for_arch(macho.fat_arch[%d].cputype) >= 0",
+              "macho.entry_point_for_arch(macho.fat_arch[%d].cputype, macho.fat_arch[%d].cpusubtype) >= 0",
+              "macho.entry_point_for_arch(macho.file[%d].cputype, macho.file[%d].cpusubtype) >= 0",
+              "macho.file_index_for_arch(macho.fat_arch[%d].cputype) >= 0",
+              "macho.file_index_for_arch(macho.file[%d].cputype, macho.file[%d].cpusubtype) >= 0",
+              "for any a in macho.fat_arch : (macho.entry_point_for_arch(a.cputype, a.cpusubtype) >= 0 and macho.file_index_for_arch(a.cputype) >= 0)",
+              "for any f in macho.file : (macho.entry_point_for_arch(f.cputype) >= 0)"],
+    "pe": ["pe.rva_to_offset(pe.entry_point) >= 0", "pe.rva_to_offset(pe.sections[%d].virtual_address + pe.sections[%d].raw_data_size - 1) >= 0",
+           "for any s in pe.sections : (pe.rva_to_offset(s.virtual_address) >= 0 and pe.section_index(s.name) >= 0 and pe.section_index(s.virtual_address) >= 0)",
+           "for any d in pe.data_directories : (pe.rva_to_offset(d.virtual_address + d.size) >= 0)",
+           "for any i in pe.import_details : (pe.imports(i.library_name) >= 0 and pe.imports(i.library_name, i.functions[0].name) >= 0 and pe.import_rva(i.library_name, i.functions[0].name) >= 0 and pe.imports(pe.IMPORT_ANY, i.library_name, i.functions[%d].ordinal) >= 0)",
+           "for any i in pe.delayed_import_details : (pe.imports(pe.IMPORT_DELAYED, i.library_name, i.functions[0].name) >= 0 and pe.delayed_import_rva(i.library_name, i.functions[0].name) >= 0)",
+           "for any e in pe.export_details : (pe.exports(e.name) and pe.exports_index(e.name) >= 0 and pe.exports(e.ordinal) and pe.exports_index(e.ordinal) >= 0)",
+           "for any r in pe.resources : (pe.language(r.language) or pe.locale(r.language) or pe.rva_to_offset(r.rva) >= 0)",
+           "pe.rich_signature.version(pe.rich_signature.key & 0xFFFF) >= 0 or pe.rich_signature.toolid(%d, %d) >= 0",
+           "for any s in pe.signatures : (s.valid_on(s.not_before) >= 0 and s.valid_on(s.not_after + %d) >= 0)",
+           "pe.calculate_checksum() == pe.checksum or pe.imphash() == \"\" or pe.is_dll() or pe.is_32bit() or pe.is_64bit()"],
+    "elf": ["elf.import_md5() != \"\" or elf.telfhash() != \"\"", "for any s in elf.sections : (hash.crc32(s.offset, s.size) >= 0)",
+            "for any s in elf.segments : (math.entropy(s.offset, s.file_size) >= 0.0)"],
+    "dex": ["for any m in dex.method : (dex.has_method(m.class_name, m.name) and dex.has_method(m.name) and dex.has_class(m.class_name))",
+            "for any f in dex.field : (dex.has_class(f.class_name))",
+            "for any s in dex.string_ids : (hash.checksum32(s.offset, s.size) >= 0)"],
+    "dotnet": ["for any r in dotnet.resources : (hash.md5(r.offset, r.length) != \"\")",
+               "for any s in dotnet.streams : (math.mean(s.offset, s.size) >= 0.0)"],
+}
+
+
+def call_rules(rng, kind, first_tag, n=3):
+    mods = {"pe": ["pe", "dotnet"], "elf": ["elf"], "macho": ["macho"], "fat": ["macho"], "dex": ["dex"]}.get(kind, [])
+    pool = [(m, t) for m in mods for t in CALL_RULES[m]]
+    out = []
+    for k in range(min(n, len(pool))):
+        m, t = rng.choice(pool)
+        cnt = t.count("%d")
+        cond = t % tuple(rng.choice([0, 0, 1, 2, 5]) for _ in range(cnt)) if cnt else t
+        imports = sorted({m} | {x for x in ("hash", "math", "pe") if (x + ".") in cond})
+        out.append({"tag": "%s%d" % (first_tag, k), "imports": imports, "cond": cond})
+    return out
+
+
+def macho_entry_sweep(b):
+    """every entry-point carrying field of a Mach-O (LC_MAIN, LC_UNIXTHREAD registers, segment address/offset/size
+    fields, fat arch offset/size) x 64-bit / 32-bit extremes, systematically.  Yields (what, edit)."""
+    for off, size, name, be, ao in macho_entry_fields(b):
+        M = 1 << (8 * size)
+        cur = int.from_bytes(b[off:off + size], "big" if be else "little")
+        for v in sorted(set(x % M for x in [M - 1, M - ao, M - ao - 1, M - ao + 1, M >> 1, (M >> 1) - 1, 1 << 32,
+                                             (1 << 32) - 1, 0, 1, len(b), len(b) - ao])):
+            if v != cur:
+                yield ("%s@%d=%#x" % (name, ao, v), {"op": "set", "off": off, "hex": enc(v, size, be)})
+
+
+def all_call_rules(kind):
+    mods = {"pe": ["pe", "dotnet"], "elf": ["elf"], "macho": ["macho"], "fat": ["macho"], "dex": ["dex"]}.get(kind, [])
+    out = []
+    for m in mods:
+        for t in CALL_RULES[m]:
+            cond = t % tuple(0 for _ in range(t.count("%d"))) if t.count("%d") else t
+            out.append({"tag": "c%d" % len(out), "imports": sorted({m} | {x for x in ("hash", "math", "pe") if (x + ".") in cond}),
+                        "cond": cond})
+    return out
